@@ -86,6 +86,45 @@ fn dropping_a_receiver_clone_keeps_buffered_values() {
     core::mem::forget((s, r));
 }
 
+/// C01 for the shared flavour: waiting shared futures that are dropped leave the channel's wait queues (their Drop forwards to
+/// the channel): nothing of them is reached, woken or delivered afterwards
+#[kani::proof]
+fn shared_receive_future_dropped_while_waiting_leaves_the_queue() {
+    use core::future::Future;
+    let (s, r) = pair();
+    let w0 = kit::waker(0);
+    let mut cx = core::task::Context::from_waker(&w0);
+    let mut rf = core::mem::ManuallyDrop::new(r.receive());
+    let p = unsafe { core::pin::Pin::new_unchecked(&mut *rf) }.poll(&mut cx);
+    assert!(p.is_pending() && !s.inner.channel.inner.lock().receive_waiters.is_empty(), "[C01] a pending shared receive future is queued");
+    unsafe { core::mem::ManuallyDrop::drop(&mut rf) };
+    assert!(s.inner.channel.inner.lock().receive_waiters.is_empty(), "[C01] a dropped shared receive future is no longer in the wait queue");
+    let _ = s.try_send(1);
+    assert!(kit::total_wakes() == 0, "[C01] [C10] a dropped future is not woken");
+    core::mem::forget((s, r));
+}
+
+#[kani::proof]
+fn shared_send_future_dropped_while_waiting_leaves_the_queue() {
+    use core::future::Future;
+    let (s, r) = pair();
+    let _ = s.try_send(1);
+    let _ = s.try_send(2);
+    let w1 = kit::waker(1);
+    let mut cx = core::task::Context::from_waker(&w1);
+    let mut sf = core::mem::ManuallyDrop::new(s.send(3));
+    let p = unsafe { core::pin::Pin::new_unchecked(&mut *sf) }.poll(&mut cx);
+    assert!(p.is_pending() && !s.inner.channel.inner.lock().send_waiters.is_empty(), "[C01] a send future on a full channel is queued");
+    unsafe { core::mem::ManuallyDrop::drop(&mut sf) };
+    assert!(s.inner.channel.inner.lock().send_waiters.is_empty(), "[C01] a dropped shared send future is no longer in the wait queue");
+    let a = r.try_receive();
+    let b = r.try_receive();
+    let c = r.try_receive();
+    assert!(matches!(a, Ok(1)) && matches!(b, Ok(2)) && c.is_err(), "[C08] the value of a cancelled send is not delivered; the accepted ones are, in order");
+    assert!(kit::total_wakes() == 0, "[C01] [C10] a dropped future is not woken");
+    core::mem::forget((s, r));
+}
+
 #[kani::proof]
 fn sender_clone_and_drop_count_handles() {
     let (s, r) = pair();
